@@ -13,11 +13,12 @@ PRECISION_TUPLES = [t for r in (1, 2, 3) for sub in itertools.combinations((2, 4
                     for t in itertools.permutations(sub)]          # 15 ordered non-empty subsets
 
 
-def gen_mps_program(rng, depth=None, allow_add=True, allow_dw=True, max_c=6, small=False):
+def gen_mps_program(rng, depth=None, allow_add=True, allow_dw=True, max_c=6, small=False,
+                    allow_reuse=False):
     """2D program from the MPS-supported subset of the grammar: Conv2d (incl. depthwise), Linear,
     Conv-BN, Linear-BN, ReLU, pooling, flatten, residual add.  No concat, single input."""
     for _ in range(100):
-        b = pitgen.Builder(rng, '2d', {'max_c': max_c, 'max_f': 8})
+        b = pitgen.Builder(rng, '2d', {'max_c': max_c, 'max_f': 8, 'pmodes': True})
         c0 = rng.randint(1, 3)
         H, W = (rng.randint(4, 6), rng.randint(4, 6)) if small else (rng.randint(5, 9), rng.randint(5, 9))
         b.shapes['x0'] = (c0, H, W)
@@ -57,6 +58,18 @@ def gen_mps_program(rng, depth=None, allow_add=True, allow_dw=True, max_c=6, sma
                         sk = t
                     t = b.add(bb, sk)
                     t = b.act(t, 'relu_mod')
+                elif allow_reuse and r < 0.93 and b.origin[t] != 'input' and \
+                        min(b.shapes[t][1:]) >= 4:
+                    # multi-scale weight sharing: the same convolution on a tensor and on its
+                    # pooled version (one producer, hence one input precision; two resolutions)
+                    pk = rng.choice(['max', 'avg'])
+                    a = b.conv(t, s=1, pad='same')
+                    name = b.ops[-1]['name']
+                    bb = b.reuse(name, b.pool(t, pk))
+                    a = b.pool(b.act(a, 'relu_f'), pk)
+                    bb = b.act(bb, 'relu_f')
+                    t = b.act(b.add(a, bb), 'relu_mod')
+                    b.features.add('reuse-two-resolutions')
                 else:
                     t = b.pool(t, rng.choice(['max', 'avg']))
             shp = b.shapes[t]
